@@ -8,9 +8,9 @@ use crate::registry::*;
 use crate::rng::Rng;
 use crate::subject::GenClass;
 
-pub const UNKNOWN_KEYS: [&str; 16] = [
+pub const UNKNOWN_KEYS: [&str; 24] = [
     "rotation", "Scale", "scale ", " rot", "disp2", "", "w", "translation", "position", "0", "scal",
-    "rots", "DISP", "s", "v", "mat",
+    "rots", "DISP", "s", "v", "mat", "1", "2", "3", "01", "+1", "-0", "1.0", "null",
 ];
 
 const F64_SPECIALS: [u64; 26] = [
@@ -595,7 +595,21 @@ pub fn sweep_plans(reg: &[TypeEntry]) -> Vec<Plan> {
                     out.push(q);
                     let keys = &p.records[0].1;
                     for pos in 0..=arr.len() as u8 {
-                        for (key, val) in [("rotation", UVal::CopyOf(1)), ("Scale", UVal::Num), ("", UVal::Unit), ("w", UVal::Rec)] {
+                        for (key, val) in [
+                            ("rotation", UVal::CopyOf(1)),
+                            ("Scale", UVal::Num),
+                            ("", UVal::Unit),
+                            ("w", UVal::Rec),
+                            // field indices spelled as text, and other things a lenient key parser might accept
+                            ("0", UVal::CopyOf(0)),
+                            ("1", UVal::CopyOf(1)),
+                            ("2", UVal::CopyOf(2)),
+                            ("3", UVal::Num),
+                            ("01", UVal::CopyOf(1)),
+                            ("+2", UVal::CopyOf(2)),
+                            ("0x1", UVal::CopyOf(1)),
+                            ("true", UVal::Num),
+                        ] {
                             let mut q = base.clone();
                             q.rfaults = faults.clone();
                             q.rfaults.push(RFault::Unknown { path: vec![], pos, key: key.to_string(), val });
